@@ -31,7 +31,11 @@ def scenarios():
     # F3: an allocation arrives while ConfigurePool is listing the store
     for nested in ({"op": "alloc_ranges", "key": "sts_ns1_web_web-0", "subnet": "10.1.0.0/24", "ranges": [["10.101.0.3"]], "attr": A0},
                    {"op": "alloc_specific", "key": "sts_ns1_web_web-1", "ip": "10.101.0.4", "attr": A0},
-                   {"op": "release", "key": "sts_ns1_db_db-0", "ip": "10.101.0.9"}):
+                   {"op": "release", "key": "sts_ns1_db_db-0", "ip": "10.101.0.9"},
+                   # updates of an existing object in the window: a reserve IP handed to a pod, attributes rewritten, a reservation
+                   {"op": "alloc_with_key", "old": "sts_ns1_db_db-0", "new": "dp_ns1_api_api-7f9c-x1", "subnet": "10.2.0.0/24", "attr": A0},
+                   {"op": "update_attr", "key": "sts_ns1_db_db-0", "ip": "10.101.0.9", "attr": {"policy": 2, "node": "node2", "uid": "uid-b"}},
+                   {"op": "reserve", "old": "sts_ns1_db_db-0", "new": "sts_ns1_db_db-0", "attr": {"policy": 0, "node": "", "uid": ""}}):
         S.append(("request-during-reload-list:" + nested["op"], [
             conf_op([P2]),
             {"op": "alloc_ranges", "key": "sts_ns1_db_db-0", "subnet": "10.2.0.0/24", "ranges": [["10.101.0.9"]], "attr": A0},
@@ -153,7 +157,9 @@ def monitors(steps, focus):
     return out
 
 
-def run(ctx, focus, theorems_module, theorems, refuted, kinds=None, nrandom=(120, 1200), nfault_bases=(6, 40)):
+def run(ctx, focus, theorems_module, theorems, refuted, kinds=None, nrandom=(120, 1200), nfault_bases=(6, 40), only=None):
+    """only: run just the scenarios whose name starts with this prefix (used by the plugin-level checks to re-validate the
+    atomicity of ConfigurePool their model relies on), no random histories, no theorem re-check"""
     ctx.cov["trusted_base"] = vf.TRUSTED_COMMON + [
         "harness fakes: client-go fake clientset as the API server (Create of an existing name / Update, Delete, Get of a missing "
         "name fail and change nothing; an injected failure has no effect), informer events delivered on request through the "
@@ -162,10 +168,15 @@ def run(ctx, focus, theorems_module, theorems, refuted, kinds=None, nrandom=(120
     ctx.assumptions += ["an administrator does not change a reserved object again before galaxy-ipam has seen the previous change",
                         "administrator-created objects carry no node/uid attribute",
                         "single clean fault per operation (a failed rollback delete is a second fault, outside the quantifier)"]
-    ctx.theorems(theorems_module, theorems, refuted, deps=DEPS + [theorems_module])
+    if only is None:
+        ctx.theorems(theorems_module, theorems, refuted, deps=DEPS + [theorems_module])
+    else:
+        nrandom, nfault_bases = (0, 0), (0, 0)
     rng = ctx.rng
     hists, labels = [], []
     for name, ops in scenarios():
+        if only is not None and not name.startswith(only):
+            continue
         hists.append(ops)
         labels.append("scenario:" + name)
         ctx.dist("history:scenario")
@@ -181,7 +192,7 @@ def run(ctx, focus, theorems_module, theorems, refuted, kinds=None, nrandom=(120
     nb = nfault_bases[0] if ctx.quick else nfault_bases[1]
     variants, vlabels = [], []
     bases = [i for i in range(len(hists)) if not any(o.get("during_list") for o in hists[i])]
-    for i in bases[:len(scenarios()) - 1] + bases[len(scenarios()):len(scenarios()) + nb]:
+    for i in ([] if only is not None else bases[:len(scenarios()) - 1] + bases[len(scenarios()):len(scenarios()) + nb]):
         base_clean = [dict(o, fault=-1) if "fault" in o else o for o in hists[i]]
         clean_obs = ctx.harness("ipam", [strip(base_clean)])[0]
         for v in fault_variants(base_clean, clean_obs.get("steps") or []):
